@@ -61,6 +61,18 @@ CHECKS = {
         design_ref='DESIGN.md section 9 C19',
         note=BASE_NOTE + "Python format(abs(v), ',.Nf') and '{}'.format are external contracts, not modelled.",
         technique='Lean 4 theorems over an executable model + model/implementation correspondence'),
+    'C09': dict(
+        category='proof',
+        text='Theorems: the machine decoder inverts the assembler encoder for every well-formed instruction and every '
+             'instruction sequence (over the instruction table REGENERATED from qvm/instrs.py on each run); opcodes and '
+             'mnemonics are distinct; the disassembler consumes exactly the table\'s operand sizes for every opcode '
+             '(table obtained by executing QModule.disassemble); literals and DATA sections round-trip for all contents '
+             'within the stated size limits; cp437 is injective. The real bytes of generated modules are parsed by the '
+             'Lean model and compared with QModule.parse, get_instruction_at, disassemble() and str(code); jump/call/'
+             'errhand targets, variable operands and frame declarations are checked on every real module.',
+        design_ref='DESIGN.md section 9 C09',
+        note=BASE_NOTE + 'struct and the cp437 codec are CPython; the debug section is an opaque blob.',
+        technique='Lean 4 round-trip theorems over generated tables + parsing the real module bytes with the model'),
 }
 
 PENDING = ('not yet decided by the Lean framework in this commit; design in DESIGN.md section 9, implementation order in '
